@@ -49,6 +49,7 @@ type RuleStat struct {
 }
 
 type Report struct {
+	seen map[string]bool
 	Prop        string
 	Tier        string
 	Level       string
@@ -113,6 +114,15 @@ func (r *Report) Add(o Obligation) {
 	if o.Verdict == Violated && r.known != nil && r.known.Has(r.Prop, o.Key) {
 		o.Verdict = KnownFinding
 	}
+	// a rule shared by several properties may be run twice within one report (cross-inclusion): keep one copy
+	if r.seen == nil {
+		r.seen = map[string]bool{}
+	}
+	id := o.Key + "\x00" + o.Pos + "\x00" + string(o.Verdict) + "\x00" + o.Config
+	if r.seen[id] {
+		return
+	}
+	r.seen[id] = true
 	s := r.stat(o.Rule)
 	s.Instances++
 	switch o.Verdict {
